@@ -477,6 +477,12 @@ def handler (spec : Bool) (name : String) : Option (List Arg → Res) :=
     | ty :: t :: p :: c => withTy ty fun ty => text t fun t => text p fun p => clockOf c fun c =>
         (match parseValue ty t p c with | .ok (v, reads) => .ok [.int v, .int reads] | .error e => .err e)
     | _ => .badOp
+  | "K.consts" => some fun
+    | [] => .ok [.int DATE_MIN_DAYS, .int DATE_MAX_DAYS, .int 0, .int (Gen.USECONDS_PER_DAY - 1), .int TIMESTAMP_MIN, .int TIMESTAMP_MAX,
+                 .int (-Gen.INTERVAL_MAX_MONTH), .int 0, .int Gen.INTERVAL_MAX_MONTH,
+                 .int (-Gen.INTERVAL_MAX_USECONDS), .int 0, .int Gen.INTERVAL_MAX_USECONDS,
+                 .int TIMESTAMP_MIN, .int OracleDate.MAX]
+    | _ => .badOp
   | "F.parse2" => some fun
     | [ty, t, p, a1, a2, a3, a4, a5, a6, a7, b1, b2, b3, b4, b5, b6, b7] =>
       withTy ty fun ty => text t fun t => text p fun p => clockOf [a1, a2, a3, a4, a5, a6, a7] fun _ =>
